@@ -157,6 +157,9 @@ func (a *Array) AsFloat() ([]float64, error) {
 
 readArray:
 	for {
+		if a.off >= len(a.tape.Tape) {
+			return nil, errors.New("corrupt input: array is not terminated")
+		}
 		tag := Tag(a.tape.Tape[a.off] >> 56)
 		a.off++
 		switch tag {
@@ -196,6 +199,9 @@ func (a *Array) AsInteger() ([]int64, error) {
 	dst := make([]int64, 0, lenEst)
 readArray:
 	for {
+		if a.off >= len(a.tape.Tape) {
+			return nil, errors.New("corrupt input: array is not terminated")
+		}
 		tag := Tag(a.tape.Tape[a.off] >> 56)
 		a.off++
 		switch tag {
@@ -247,6 +253,9 @@ func (a *Array) AsUint64() ([]uint64, error) {
 	dst := make([]uint64, 0, lenEst)
 readArray:
 	for {
+		if a.off >= len(a.tape.Tape) {
+			return nil, errors.New("corrupt input: array is not terminated")
+		}
 		tag := Tag(a.tape.Tape[a.off] >> 56)
 		a.off++
 		switch tag {
